@@ -223,6 +223,23 @@ def _python_stream(ctx: Ctx):
                 ctx.fail(f"Python fragments differing only in formatting denote different factors: {s1!r} vs {s2!r}", rp)
         except Exception as e:
             ctx.fail(f"{type(e).__name__} while parsing {s1!r} / {s2!r}", rp)
+        # formatting is whitespace BETWEEN Python tokens; the inside of a string literal is content, taken verbatim
+        import ast as _ast
+        lit1, lit2 = rng.choice([("a  b", "a b"), ("x   y", "x y"), ("  p", "p"), ("q ", "q"), ("m  n  o", "m n o")])
+        qt = rng.choice("'\"")
+        call = rng.choice(["f({q}{v}{q})", "C(x, levels=[{q}{v}{q}, {q}c{q}])", "g(a, k={q}{v}{q})"])
+        t1, t2 = call.format(q=qt, v=lit1), call.format(q=qt, v=lit2)
+        ctx.oracle_runs += 1
+        try:
+            e1 = [fc.expr for t in Formula(t1 + " - 1") for fc in t.factors]
+            consts = [n.value for x in e1 for n in _ast.walk(_ast.parse(x, mode="eval")) if isinstance(n, _ast.Constant) and isinstance(n.value, str)]
+            if len(e1) != 1 or lit1 not in consts:
+                ctx.fail(f"the string literal {lit1!r} inside {t1!r} was not taken verbatim: the factor is {e1}", {"kind": "python-literal", "formula": t1})
+            both = Formula(t1 + " + " + t2 + " - 1")
+            if len(both) != 2:
+                ctx.fail(f"{t1!r} and {t2!r} differ inside a string literal but were read as the same factor: {both!r}", {"kind": "python-literal", "formula": t1 + " + " + t2})
+        except Exception as e:
+            ctx.fail(f"{type(e).__name__} while parsing {t1!r}: {e}", {"kind": "python-literal", "formula": t1})
         for s in (s1, s2):
             out, kind, _ = G.run_impl(s, True, (True, True, False), None)
             lits.append(G.case_literal(s, True, (True, True, False), None, out))
